@@ -46,17 +46,16 @@ def totalS (cells : List Cell) : Int := sumL (cells.map (·.s))
 
 /-- The susceptible hosts consumed by the dispersers of one origin cell equal the increase of its
     established counter, which never exceeds the number of its dispersers; no other counter
-    changes. -/
+    changes. Holds also when the cell list is shorter than the grid (in the C++ the rasters always
+    cover the grid): a landing only succeeds at a cell of the landscape. -/
 theorem C04_ledger_cell (g : Grid) (env : DisperseEnv) (origin n : Nat) (cells cells' : List Cell)
     (p p' : PestState) (ts ts' : List (Int × Int)) (us us' : List Rat)
     (ho : origin < p.est.length)
-    (hin : ∀ t ∈ ts, g.isOutside t.1 t.2 = false → g.idx t.1 t.2 < cells.length)
     (h : disperseCell g env origin n cells p ts us = .ok (cells', p', ts', us')) :
     totalS cells - totalS cells' = p'.est[origin]! - p.est[origin]! ∧
     0 ≤ p'.est[origin]! - p.est[origin]! ∧ p'.est[origin]! - p.est[origin]! ≤ n ∧
     p'.est.length = p.est.length ∧ (∀ k : Nat, k ≠ origin → p'.est[k]? = p.est[k]?) ∧
     p'.disp = p.disp ∧ ts.length - ts'.length ≤ n ∧ cells'.length = cells.length := by
-  have _ := hin  -- not needed: a landing only succeeds at a cell of the landscape
   obtain ⟨m, m1, m2, m3, m4, m5, pre, m6, m7⟩ :=
     act_disperseCell_facts g env origin n cells cells' p p' ts ts' us us' ho h
   have e : p'.est[origin]! = p.est[origin]! + (m : Int) := by rw [m2, act_getElem!_set_self _ _ ho]
@@ -66,14 +65,12 @@ theorem C04_ledger_cell (g : Grid) (env : DisperseEnv) (origin n : Nat) (cells c
   rw [m2, List.getElem?_set_ne (Ne.symm hk)]
 
 /-- Over a whole dispersal: the susceptible hosts consumed by spread equal the sum of the
-    established dispersers. -/
+    established dispersers. (No hypothesis that the targets index into the cell list is needed.) -/
 theorem C04_ledger (g : Grid) (env : DisperseEnv) (suit : List (Int × Int)) (cells cells' : List Cell)
     (p p' : PestState) (ts ts' : List (Int × Int)) (us us' : List Rat)
     (hs : ∀ rc ∈ suit, g.idx rc.1 rc.2 < p.est.length)
-    (hin : ∀ t ∈ ts, g.isOutside t.1 t.2 = false → g.idx t.1 t.2 < cells.length)
     (h : disperseStep g env suit cells p ts us = .ok (cells', p', ts', us')) :
     totalS cells - totalS cells' = sumL p'.est - sumL p.est ∧ p'.disp = p.disp := by
-  have _ := hin  -- not needed
   obtain ⟨a1, a2, _⟩ := act_disperseGo_facts g env suit cells cells' p p' ts ts' us us' hs h
   exact ⟨a1, a2⟩
 
